@@ -162,6 +162,7 @@ type replica struct {
 	cseq   uint64 // acknowledged own operations
 	// bookkeeping for oracles
 	seenOwn int    // own operations seen so far (seq of the newest)
+	ownIDs  map[int]string // seq -> identifier and type of the own operation seen with that sequence number
 	maxLam  uint64 // greatest lamport of any operation applied here
 }
 
@@ -285,11 +286,23 @@ func (r *replica) pendingOps() []*model.Operation {
 // noteOwnOps checks C15 on the operations issued since the last look.
 func (w *world) noteOwnOps(r *replica) {
 	ops := r.pendingOps()
-	for _, o := range ops {
+	if r.ownIDs == nil {
+		r.ownIDs = map[int]string{}
+	}
+	for i, o := range ops {
 		seq := int(o.ID.Seq)
+		id := fmt.Sprintf("%d:%d:%s:%d/%v", o.ID.Era, o.ID.Lamport, o.ID.CUID, o.ID.Seq, o.OpType)
+		if i > 0 && o.ID.Seq <= ops[i-1].ID.Seq {
+			w.c.Violate("C15", "seq-not-increasing", fmt.Sprintf("%s replica %d holds pending operations with sequence numbers %d then %d", w.kind, r.idx, ops[i-1].ID.Seq, o.ID.Seq), w.desc)
+		}
 		if seq <= r.seenOwn {
+			// an operation seen before keeps its identifier; a different operation under a used sequence number is a reuse
+			if old, ok := r.ownIDs[seq]; ok && old != id {
+				w.c.Violate("C15", "identifier-reused", fmt.Sprintf("%s replica %d: sequence number %d was issued to %s and is now carried by %s", w.kind, r.idx, seq, old, id), w.desc)
+			}
 			continue
 		}
+		r.ownIDs[seq] = id
 		if seq != r.seenOwn+1 {
 			w.c.Violate("C15", "seq-gap", fmt.Sprintf("%s replica %d issued operation seq %d after seq %d", w.kind, r.idx, seq, r.seenOwn), w.desc)
 		}
